@@ -24,7 +24,8 @@ SHARDS = {"quick": 8, "thorough": 16}
 RULE = ("seeded documents with a target zone (Sections at depth 1-3, every dtype) and 1-4 linking Sections (never "
         "nested, never targets; absolute and relative link paths, or include URLs file:...#path / file:... into a "
         "second generated file), linking Sections empty / with own children of other names (restoration law) / "
-        "of the same names (first sentence only); finalize, clean, 1-3 cycles, save/load in between; "
+        "of the same names (first sentence only); linking and target zones directly below the Document or below a shared "
+        "ancestor (relative canonical links); target sub-Sections that use their id as name; finalize, clean, 1-3 cycles, save/load in between; "
         "non-trivial = at least one link whose target has children; distinct = hash of the spec without ids")
 ASSUMPTIONS = ["quantifier respected: no chained or nested links, target is neither the linking Section nor one of "
                "its ancestors / descendants",
